@@ -321,6 +321,7 @@ class Program:
         self.adts = {}
         self.impls = []
         self.consts = {}
+        self.helper_attrs = []
         self.crate = None
         self.end = None
         import gc
@@ -344,6 +345,8 @@ class Program:
                     self.impls.append(r)
                 elif k == "const":
                     self.consts[r["path"]] = r
+                elif k == "helper_attr":
+                    self.helper_attrs.append(r)
                 elif k == "crate":
                     self.crate = r
                 elif k == "end":
